@@ -22,7 +22,14 @@ HARNESSES = [
   dict(COMMON, name="refresh", entry="h_refresh", encoded=["hwloc_internal_memattrs_refresh", "hwloc__imattr_refresh", "hwloc__imtg_refresh", "hwloc__imi_refresh", "hwloc__imi_destroy", "hwloc__imtg_destroy", "hwloc_internal_memattrs_need_refresh"],
        tiers={"quick": {}, "thorough": {}}, bounds="root cpuset shrunk to any subset of 6 bits; any subset of the referenced objects gone; cache valid or not"),
 ]
+HARNESSES.append(dict(COMMON, name="default_nodeset", entry="h_default_nodeset", encoded=["hwloc_topology_get_default_nodeset", "compare_nodes_by_os_index", "qsort (model)"], unwindset=dict(COMMON["unwindset"], **{"qsort.0": 6, "qsort.1": 6, "strcmp.0": 4}),
+                      tiers={"quick": {"defines": {"DN": 3}}, "thorough": {"defines": {"DN": 4}}}, unwind=10, bounds="a NUMA level of 3 (thorough: 4) nodes, 8 dense and sparse os_index numberings in different level orders (concrete runs selected by a symbolic input), ANY cpusets inside any 6-bit root cpuset (nested, overlapping, empty), subtypes none/A/B; any flag word"))
 for e in (0, 1):
     HARNESSES.append(dict(COMMON, name="dup" if e == 0 else "dup_emptied", entry="h_dup", defines={"EMPT": e}, encoded=["hwloc_internal_memattrs_dup", "hwloc_bitmap_tma_dup", "hwloc_tma_strdup"], tiers={"quick": {}, "thorough": {}},
                           bounds="the table with cpuset and object initiators, arbitrary values" + ("; after a refresh removed every target of the custom attribute (array still allocated)" if e else "")))
+# the XML round trip is decided by the element-tree harness of C05 (same source, same query)
+import importlib.util as _iu, os as _os
+_s = _iu.spec_from_file_location("spec_C05", _os.path.join(_os.path.dirname(__file__), "C05.py")); _m5 = _iu.module_from_spec(_s); _s.loader.exec_module(_m5)
+for _h in _m5.HARNESSES:
+    if _h["name"] in ['xml_roundtrip_memattrs']: _h2 = dict(_h); _h2["name"] = "C05_" + _h["name"]; HARNESSES.append(_h2)
 OUTSIDE = ["hwloc_topology_get_default_nodeset", "memory-tier guessing (string heuristics)", "attributes without NEED_INITIATOR beyond Capacity/Locality", "XML/dup persistence (C05/C12)", "more than 2 targets x 2 initiators"]
